@@ -33,6 +33,12 @@ func ruleVD16(c *Ctx) {
 		}
 	}
 	add(c.unitOf(hc))
+	if ir := c.F.Anchors["isReachable"]; ir != nil {
+		// the search proper is a role of its own: it belongs to the unit whoever else calls it
+		add([]*ssa.Function{ir})
+		add(Closures(ir))
+		add(c.unitOf(ir))
+	}
 	for i := 0; i < len(order); i++ {
 		for _, call := range callsIn(order[i]) {
 			cal := calleeOf(call.Common())
